@@ -1,7 +1,7 @@
 (* C05 driver.  One program per line (whitespace separated tokens):
      block := "(" (id stmt)* ")"
      stmt  := L x q | A x | U x | AF x | UF x | F f np p1..pnp block | C f n | O block | I block block | W block | P block
-            | R block | S els "[" block* "]" block | B | N | T | J l | G l | D block | X len k | V t v
+            | R block | S els "[" (line value block)* "]" block | B | N | T | J l | G l | D block | X len k | V t v
    (q: 0 var 1 const 2 comptime; len,k,v: signed hex).
    Output: <offenders id:kind ...> TAB <rule_ok flow names labels consts as 0/1> *)
 open Model
@@ -40,7 +40,7 @@ let parse (toks : string array) : block =
     | "R" -> For (block ())
     | "S" -> let els = next () = "1" in
       (match next () with "[" -> () | t -> raise (Parse ("expected [ got " ^ t)));
-      let rec cs () : cases = if peek () = "]" then (incr pos; CNil) else let b = block () in let r = cs () in CCons (b, r) in
+      let rec cs () : cases = if peek () = "]" then (incr pos; CNil) else let cid = num () in let v = num () in let b = block () in let r = cs () in CCons (cid, v, b, r) in
       let c = cs () in let d = block () in Switch (c, els, d)
     | "B" -> Break
     | "N" -> Continue
@@ -58,7 +58,7 @@ let kind_str = function
   | KBreak -> "break" | KContinue -> "continue" | KFall -> "fallthrough" | KLabelDup -> "labeldup"
   | KGotoNoLabel -> "gotonolabel" | KGotoDefer -> "gotodefer" | KUndeclared -> "undeclared"
   | KUpvalue -> "upvalue" | KConstAssign -> "constassign" | KArity -> "arity" | KNotCallable -> "notcallable"
-  | KRange -> "range" | KIndex -> "index"
+  | KRange -> "range" | KIndex -> "index" | KDupCase -> "dupcase"
 
 let b2s b = if b then "1" else "0"
 
@@ -70,7 +70,7 @@ let () =
           let p = parse (Array.of_list (split_ws line)) in
           let offs = offenders p in
           String.concat " " (List.map (fun (id, k) -> string_of_int (int_of_nat id) ^ ":" ^ kind_str k) offs)
-          ^ "\t" ^ String.concat " " (List.map b2s [rule_ok p; rule_flow p; rule_names p; rule_labels p; rule_consts p])
+          ^ "\t" ^ String.concat " " (List.map b2s [rule_ok p; rule_flow p; rule_names p; rule_labels p; rule_consts p; rule_switch p])
         with
         | Parse m -> "!parse " ^ m
         | e -> "!exn " ^ Printexc.to_string e
